@@ -41,7 +41,7 @@ def moving_window_transform(
 
     n = len(X)
     splits = np.arange(bandwidth, n - bandwidth + 1)
-    starts = splits - bandwidth + 1
+    starts = splits - bandwidth
     ends = splits + bandwidth
     change_scores = change_score.evaluate(np.column_stack((starts, splits, ends)))
     agg_change_scores = np.sum(change_scores, axis=1)
